@@ -9,16 +9,11 @@ import (
 
 func main() {
 	s := sqlize.NewSqlize()
-	for _, a := range os.Args[1:] {
-		func() {
-			defer func() {
-				if r := recover(); r != nil {
-					fmt.Println("PANIC:", r)
-				}
-			}()
-			err := s.FromString(a)
-			fmt.Println("err:", err)
-		}()
+	err := s.FromString(os.Args[1])
+	fmt.Println("err:", err)
+	for _, a := range s.ArvoSchema() {
+		fmt.Println(a)
 	}
-	fmt.Println(s.StringUp())
+	fmt.Printf("%q\n", s.MermaidJsErd())
+	fmt.Println(s.MermaidJsLive())
 }
